@@ -6,7 +6,7 @@ import traceback
 
 from .model import Program, AnalysisError, Inconclusive
 from .resolve import Resolver
-from .norm import normalize_calls
+from .norm import normalize_calls, normalize_membership, normalize_ifexp
 from .excflow import ExcFlow
 from .effects import Effects
 
@@ -50,6 +50,8 @@ class Ctx:
         self.P = Program(sources) if sources is not None else Program.from_repo()
         self.R = Resolver(self.P)
         self.calls_normalised = normalize_calls(self.P, self.R)
+        normalize_membership(self.P)
+        normalize_ifexp(self.P)
         self._X = None
         self.E = Effects(self.P, self.R)
         self.tier = tier
